@@ -8,10 +8,10 @@ git apply OUT/patch.diff || { echo "CONFIRM: patch does not apply"; exit 1; }
 t=$(cargo test --workspace --offline 2>&1 | grep -E '^test result' | awk '{p+=$4; f+=$6} END {print p" passed "f" failed"}')
 echo "with patch: existing suite: $t"
 eval "$APPLY" || { echo "CONFIRM: demo does not apply"; }
-eval "$RUN" > OUT/demo_with.log 2>&1; rc_with=$?
+( eval "$RUN" ) > OUT/demo_with.log 2>&1; rc_with=$?
 echo "with patch: demo exit=$rc_with ($(grep -E '^test result|FAILED|panicked' OUT/demo_with.log | head -3 | tr '\n' ' '))"
 git apply -R OUT/patch.diff || echo "CONFIRM: cannot revert patch"
-eval "$RUN" > OUT/demo_without.log 2>&1; rc_without=$?
+( eval "$RUN" ) > OUT/demo_without.log 2>&1; rc_without=$?
 echo "without patch: demo exit=$rc_without ($(grep -E '^test result' OUT/demo_without.log | head -3 | tr '\n' ' '))"
 git checkout -q -- . ; git clean -qfd -e OUT -e target
 if [ $rc_with -ne 0 ] && [ $rc_without -eq 0 ] && echo "$t" | grep -q ' 0 failed'; then echo "CONFIRMED"; else echo "NOT CONFIRMED"; fi
